@@ -361,6 +361,26 @@ func execOp(line string) string {
 			}
 			return "ok " + one(a) + " ; " + one(b) + " ; " + one(append(append([]byte{}, a...), b...))
 		})
+	case "reuse":
+		// reuse.K <hex A> <hex B>: decode A, then decode B into the SAME receiver; the result must be what a fresh
+		// receiver gives for B (err when B is rejected, whatever A left behind)
+		f := strings.Fields(args)
+		if len(f) != 2 {
+			return "bad-op reuse"
+		}
+		a, b := exactCap(unhexOr(f[0])), exactCap(unhexOr(f[1]))
+		return measured(len(a)+len(b), func() string {
+			switch kind {
+			case "HDR", "RREP", "CHUNK", "ITEM", "RLC", "SVC", "DELTA", "COMPOUND":
+				return reuseSub(kind, a, b)
+			}
+			p := newPacket(kind)
+			_ = p.Unmarshal(a)
+			if err := p.Unmarshal(b); err != nil {
+				return "err"
+			}
+			return "ok " + bodyTokens(p)
+		})
 	case "hold":
 		// hold.K <value 1> | <value 2>: the bytes returned for value 1 must not change when value 2 is marshalled
 		parts := strings.SplitN(args, " | ", 2)
@@ -717,4 +737,68 @@ func execCcfbMetric(kind string, r *R) string {
 		return w.String()
 	}
 	return "bad-op ccfbmetric"
+}
+
+func reuseSub(kind string, a, b []byte) string {
+	w := &W{}
+	w.S("ok")
+	switch kind {
+	case "HDR":
+		var x rtcp.Header
+		_ = x.Unmarshal(a)
+		if x.Unmarshal(b) != nil {
+			return "err"
+		}
+		putHeader(w, x)
+	case "RREP":
+		var x rtcp.ReceptionReport
+		_ = x.Unmarshal(a)
+		if x.Unmarshal(b) != nil {
+			return "err"
+		}
+		putRRep(w, x)
+	case "CHUNK":
+		var x rtcp.SourceDescriptionChunk
+		_ = x.Unmarshal(a)
+		if x.Unmarshal(b) != nil {
+			return "err"
+		}
+		putChunk(w, x)
+	case "ITEM":
+		var x rtcp.SourceDescriptionItem
+		_ = x.Unmarshal(a)
+		if x.Unmarshal(b) != nil {
+			return "err"
+		}
+		putItem(w, x)
+	case "RLC":
+		x := &rtcp.RunLengthChunk{}
+		_ = x.Unmarshal(a)
+		if x.Unmarshal(b) != nil {
+			return "err"
+		}
+		putTwccChunk(w, x)
+	case "SVC":
+		x := &rtcp.StatusVectorChunk{}
+		_ = x.Unmarshal(a)
+		if x.Unmarshal(b) != nil {
+			return "err"
+		}
+		putTwccChunk(w, x)
+	case "DELTA":
+		var x rtcp.RecvDelta
+		_ = x.Unmarshal(a)
+		if x.Unmarshal(b) != nil {
+			return "err"
+		}
+		return fmt.Sprintf("ok %d %d", x.Type, x.Delta)
+	case "COMPOUND":
+		var c rtcp.CompoundPacket
+		_ = c.Unmarshal(a)
+		if c.Unmarshal(b) != nil {
+			return "err"
+		}
+		return "ok " + packetsTokens([]rtcp.Packet(c))
+	}
+	return w.String()
 }
